@@ -212,6 +212,32 @@ func p17ErrClass(err error) uint8 {
 	return 2
 }
 
+// p17Msg: the message that carries the identity k (< 128) in its first data byte; the kind changes with k so that every
+// class a listener without options must receive occurs: channel voice (six kinds), MTC quarter frame, song position,
+// song select (real-time clock / active sense / sysex are what the options filter: C14)
+func p17Msg(k int) []byte {
+	d := byte(k & 0x7F)
+	switch k % 9 {
+	case 0:
+		return []byte{0x90, d, 100}
+	case 1:
+		return []byte{0xB0, d, 1}
+	case 2:
+		return []byte{0xC0, d}
+	case 3:
+		return []byte{0xF1, d}
+	case 4:
+		return []byte{0xF2, d, 0}
+	case 5:
+		return []byte{0xF3, d}
+	case 6:
+		return []byte{0xE0, d, 0x40}
+	case 7:
+		return []byte{0xA0, d, 5}
+	}
+	return []byte{0x80, d, 0}
+}
+
 // p17RunImpl runs a history on a fresh test driver and returns one observation per op.
 func p17RunImpl(ops []p17Op, obs []p17Obs) []p17Obs {
 	obs = obs[:0]
@@ -222,8 +248,18 @@ func p17RunImpl(ops []p17Op, obs []p17Obs) []p17Obs {
 	var stops []func()
 	var cur *p17Obs
 	note := func(b []byte) int {
-		if len(b) == 3 && b[0] == 0x90 && b[2] == 100 {
-			return int(b[1])
+		// the message kinds of p17Msg; the raw driver callback pads to three bytes, midi.ListenTo re-types
+		if len(b) >= 2 && int(b[1]) < 128 && b[0] == p17Msg(int(b[1]))[0] {
+			w := p17Msg(int(b[1]))
+			ok := true
+			for i := range b {
+				if i < len(w) && b[i] != w[i] || i >= len(w) && b[i] != 0 {
+					ok = false
+				}
+			}
+			if ok && len(b) >= len(w) {
+				return int(b[1])
+			}
 		}
 		return 100000 + len(b) // not the message that was sent
 	}
@@ -270,13 +306,13 @@ func p17RunImpl(ops []p17Op, obs []p17Obs) []p17Obs {
 					stops[o.arg]()
 				}
 			case "x":
-				ob.res = p17ErrClass(out.Send([]byte{0x90, byte(o.arg), 100}))
+				ob.res = p17ErrClass(out.Send(p17Msg(o.arg)))
 			case "X":
 				send, err := midi.SendTo(out)
 				if err != nil {
 					ob.res = p17ErrClass(err)
 				} else {
-					ob.res = p17ErrClass(send(midi.Message{0x90, byte(o.arg), 100}))
+					ob.res = p17ErrClass(send(midi.Message(p17Msg(o.arg))))
 				}
 			}
 		}); p != "" {
